@@ -241,11 +241,53 @@ pub fn necessary(ops: &[Op]) -> Option<String> {
 // -------------------------------------------------------------------------------------------------
 struct Plan {
     tasks: Vec<Vec<(u8, u8)>>, // (op type 0=w 1=r 2=nr, key)
+    /// Explicit number of scheduler yields before each task's first operation (transition shape).
+    pre_yields: Vec<u32>,
     keys: u8,
     yields: bool,
 }
 
+/// Many fresh keys, each with one writer and 1..3 waiters whose first operations are staggered by
+/// 0..8 scheduler yields: exercises the absent -> present transition of a key from every side
+/// (waiter registers before / while / after the first write is enqueued and applied).
+fn transition_plan(rng: &mut StdRng, multi: bool) -> Plan {
+    let keys = rng.gen_range(6, 17) as u8;
+    let mut tasks = Vec::new();
+    let mut pre = Vec::new();
+    for key in 0..keys {
+        let waiters = rng.gen_range(1, 4);
+        if rng.gen_bool(0.4) {
+            tasks.push(vec![(3u8, key)]);
+            pre.push(rng.gen_range(0, 4));
+        }
+        for _ in 0..waiters {
+            let mut ops = vec![(2u8, key)];
+            if rng.gen_bool(0.3) {
+                ops.push((1, key));
+            }
+            tasks.push(ops);
+            pre.push(rng.gen_range(0, 9));
+        }
+        let mut ops = vec![(0u8, key)];
+        if rng.gen_bool(0.3) {
+            ops.push((0, key));
+        }
+        tasks.push(ops);
+        pre.push(rng.gen_range(0, 9));
+    }
+    // interleave the spawn order
+    let mut order: Vec<usize> = (0..tasks.len()).collect();
+    use rand::seq::SliceRandom as _;
+    order.shuffle(rng);
+    let tasks2 = order.iter().map(|i| tasks[*i].clone()).collect();
+    let pre2 = order.iter().map(|i| pre[*i]).collect();
+    Plan { tasks: tasks2, pre_yields: pre2, keys, yields: !multi }
+}
+
 fn make_plan(rng: &mut StdRng, multi: bool) -> Plan {
+    if rng.gen_bool(0.4) {
+        return transition_plan(rng, multi);
+    }
     let keys = rng.gen_range(1, 4) as u8;
     let ntasks = rng.gen_range(2, 13);
     let shape = rng.gen_range(0, 4);
@@ -274,7 +316,8 @@ fn make_plan(rng: &mut StdRng, multi: bool) -> Plan {
         }
         tasks.push(ops);
     }
-    Plan { tasks, keys, yields: !multi }
+    let n = tasks.len();
+    Plan { tasks, pre_yields: vec![0; n], keys, yields: !multi }
 }
 
 async fn run_history(path: String, plan: &Plan, seed: u64) -> (Vec<Op>, HashMap<u8, Option<u64>>) {
@@ -289,8 +332,12 @@ async fn run_history(path: String, plan: &Plan, seed: u64) -> (Vec<Op>, HashMap<
         let yields = plan.yields;
         let nr_handles = nr_handles.clone();
         let mut rng = StdRng::seed_from_u64(seed ^ (t as u64) << 20);
+        let pre = plan.pre_yields.get(t).cloned().unwrap_or(0);
         mains.push(tokio::spawn(async move {
             let mut counter = 0u64;
+            for _ in 0..pre {
+                tokio::task::yield_now().await;
+            }
             for (ty, key) in ops {
                 if yields {
                     for _ in 0..rng.gen_range(0, 4) {
@@ -310,6 +357,20 @@ async fn run_history(path: String, plan: &Plan, seed: u64) -> (Vec<Op>, HashMap<
                         let i = begin(&hist, t, key, OpKind::Read(None));
                         let r = st.read(k).await.expect("read");
                         finish(&hist, i, OpKind::Read(Some(r.map(|b| bytes_val(&b)))));
+                    }
+                    3 => {
+                        // a notify_read whose future is dropped while it waits (callers race it
+                        // against cancellation in select!): it must not disturb the other waiters
+                        let mut st2 = st.clone();
+                        let h = tokio::spawn(async move {
+                            let _ = st2.notify_read(k).await;
+                        });
+                        let n = rng.gen_range(1, 5);
+                        for _ in 0..n {
+                            tokio::task::yield_now().await;
+                        }
+                        h.abort();
+                        let _ = h.await;
                     }
                     _ => {
                         // a notify_read may legitimately wait for ever: run it beside the task
